@@ -22,6 +22,11 @@ RULES = {
     'SIB.ops': 'subtraction of a duration is addition with every sign flipped',
     'TIME.months': 'month components are applied only through chrono::Months and negation / '
                    'scaling / addition act on both components',
+    'TBL.cr': 'each DateTime<U> <-> chrono conversion is chrono\'s own constructor / accessor for U '
+              'on the unchanged tick count, or an integer expression that denotes the same instant '
+              'on a grid containing pre-epoch instants that are not whole seconds and both range '
+              'limits (i64 semantics: truncating / and %, Euclidean div_euclid / rem_euclid, '
+              'checked operations)',
     'NAT.ctor': 'From<Option<_>> / Default / from_opt constructors map None to NaT',
 }
 
@@ -420,3 +425,92 @@ def check_months(run, F):
                     bad.append(c)
         run.ob('TIME.months', fn, 'DateTime %s: months only via chrono::Months' % k[1], not bad,
                fn.loc(), '%d use(s) of rhs.months in values; outside Months::new / sign tests: %s' % (uses, bad))
+
+
+def _unit_of(tref):
+    for u in ('Second', 'Millisecond', 'Microsecond', 'Nanosecond'):
+        if 'timeunit::' + u in tref:
+            return u
+    return 'Nanosecond'     # the default unit parameter is elided in the rendered type
+
+
+def check_cr_table(run, F):
+    """TBL.cr: TryFrom<DateTime<U>> for chrono::DateTime<Utc> and From<chrono::DateTime<Utc>>
+    for DateTime<U>, the pair behind as_cr / arithmetic / strftime / parse / duration_trunc"""
+    import timeeval as E
+    n = 0
+    for fn in F.fns:
+        if fn.kind != 'AssocFn' or fn.crate != 'tea_time' or not fn.file.endswith('impl_datetime.rs'):
+            continue
+        tref = fn.d.get('impl_trait_ref', '')
+        if fn.name == 'try_from' and 'TryFrom<datetime::DateTime' in tref:
+            unit = _unit_of(tref.split('TryFrom<', 1)[1])
+            n += 1
+            key = 'DateTime<%s> -> chrono' % unit
+            ctors = [x for x in walk(fn.hir) if x.get('k') == 'Call' and
+                     strip_generics(x.get('callee') or '').split('::')[-1].startswith('from_timestamp')]
+            if len(ctors) != 1:
+                run.ob('TBL.cr', fn, key, False, fn.loc(), '%d chrono constructor calls, expected 1' % len(ctors))
+                continue
+            c = ctors[0]
+            name = strip_generics(c['callee']).split('::')[-1]
+            dt_local = fn.params[0].get('local') if fn.params and fn.params[0].get('k') == 'Binding' else None
+            bad = None
+            for t in E.tick_grid(unit):
+                try:
+                    env = {dt_local: ('DT', t)}
+                    for st in fn.hir.get('stmts', []):
+                        if st['k'] == 'Let' and st['pat'].get('k') == 'Binding' and 'init' in st:
+                            try:
+                                env[st['pat']['local']] = E.ev(st['init'], env, F)
+                            except E.Unk:
+                                pass
+                    args = [E.ev(a, env, F) for a in c['ch'][1:]]
+                    if name == 'from_timestamp' and len(args) == 2:
+                        inst = args[0] * 10 ** 9 + args[1] if 0 <= args[1] < 2 * 10 ** 9 else None
+                    elif name in ('from_timestamp_millis', 'from_timestamp_micros', 'from_timestamp_nanos') \
+                            and len(args) == 1:
+                        inst = args[0] * {'from_timestamp_millis': 10 ** 6, 'from_timestamp_micros': 10 ** 3,
+                                          'from_timestamp_nanos': 1}[name]
+                    else:
+                        raise E.Unk('constructor %s/%d' % (name, len(args)))
+                except E.Unk as ex:
+                    bad = 'not evaluable: %s' % ex
+                    break
+                except E.Overflow:
+                    bad = 'arithmetic overflow at %d ticks' % t
+                    break
+                if inst != t * E.SCALE[unit]:
+                    bad = '%d ticks denote %d ns, the constructor receives %s' % (t, t * E.SCALE[unit], inst)
+                    break
+            run.ob('TBL.cr', fn, key, bad is None, loc(c),
+                   bad or '%s%s denotes the same instant on %d grid points' % (
+                       name, tuple(src(a) for a in c['ch'][1:]), len(E.tick_grid(unit))))
+        elif fn.name == 'from' and 'From<chrono::DateTime<chrono::Utc>>' in tref and \
+                'datetime::DateTime' in (fn.impl_self or ''):
+            unit = _unit_of(fn.impl_self)
+            n += 1
+            key = 'chrono -> DateTime<%s>' % unit
+            dt_local = fn.params[0].get('local') if fn.params and fn.params[0].get('k') == 'Binding' else None
+            bad = None
+            for s_, ns in E.CR_GRID:
+                want = E.expected_from_cr(unit, s_, ns)
+                if unit != 'Nanosecond' and not (-8_000_000_000 < s_ < 8_000_000_000):
+                    continue        # far outside what the other units are asked about
+                try:
+                    got = E.ticks(E.ev(fn.hir, {dt_local: ('CR', s_, ns)}, F))
+                except E.Unk as ex:
+                    bad = 'not evaluable: %s' % ex
+                    break
+                except E.Overflow:
+                    bad = 'arithmetic overflow at %d s + %d ns' % (s_, ns)
+                    break
+                if got != want:
+                    bad = 'instant %d s + %d ns gives %s, expected %s' % (
+                        s_, ns, 'NaT' if got == E.NAT else got, 'NaT' if want == E.NAT else want)
+                    break
+            run.ob('TBL.cr', fn, key, bad is None, fn.loc(),
+                   bad or 'agrees with floor(instant / unit) (NaT outside the range) on the grid: %s'
+                   % src(fn.hir)[:70])
+    run.floor('TBL.cr', 'DateTime <-> chrono conversions', n, 8)
+    return n
